@@ -491,6 +491,13 @@ func (e *Emitter) EmitPackage(mod *Module) ([]byte, error) {
 		if ty.Kind != "struct" && ty.Kind != "union" && ty.Kind != "exception" && ty.Kind != "result01" {
 			continue
 		}
+		if ty.Kind == "union" && len(ty.Fields) == 0 {
+			// a union declared without members has exactly one value (no member set);
+			// the generator accepts and round-trips it by design (gen/field.go:
+			// `and .IsUnion (len .Fields)`; gen/struct_test.go relies on it), and
+			// "exactly one member" cannot be demanded of it
+			ty.Kind = "struct"
+		}
 		gname := goNameIn(e.cur, ty.Name, ty.Fields)
 		if gname == "" {
 			e.Skipped = append(e.Skipped, mod.Name+"."+ty.Name+": Go type not found under that name")
